@@ -138,13 +138,14 @@ func parsePosition(size int, words []string) (*tak.Position, error) {
 
 func calcBudget(movetime time.Duration, gametime time.Duration, inc time.Duration) time.Duration {
 	var budget time.Duration
-	if gametime != 0 {
+	haveClock := gametime != 0
+	if haveClock {
 		budget = gametime/5 + inc
 		if budget > gametime-time.Millisecond {
 			budget = gametime - time.Millisecond
 		}
 	}
-	if movetime > 0 && (budget == 0 || movetime < budget) {
+	if movetime > 0 && (!haveClock || movetime < budget) {
 		budget = movetime
 	}
 	return budget
